@@ -174,6 +174,7 @@ def run(ctx):
         handle(ctx, c['tool'], c['P'], files, c['in_damage'], c['dseed'], None, [(res[0][0], res[0][1])], total)
     quick = ctx.tier == 'quick'
     plan = SMALL[:2] + ([SMALL[2 + rng.randrange(3)]] if quick else SMALL[2:] + SMALL * 4)
+    plan = [(t_, dict(P_, v=True) if i_ % 3 == 1 else P_) for i_, (t_, P_) in enumerate(plan)]      # -v on a third of the trees
     for (tool, P) in plan:                       # every offset
         files, in_damage = mk_tree(rng, True, P)
         dseed = rng.randrange(1 << 30)
